@@ -1,5 +1,6 @@
 """C06 - store-to-load dependencies through provably equal addresses on both ISAs."""
 import ast
+import re
 
 from .. import pm
 from ..pm import U
@@ -358,44 +359,110 @@ def _r5(ctx):
     ctx.check(roles == ["source", "src_dst"], "R5", "candidates are the memory operands that are read",
               f.where(loop), "is_memload scans the roles %s, a load is a memory operand in source or src_dst" % roles,
               f.qname, U(loop.iter))
-    accs = [n for n in ast.walk(loop) if isinstance(n, ast.AugAssign) and isinstance(n.target, ast.Name)]
-    names = {n.target.id for n in accs}
-    if len(names) != 1:
-        ctx.broken("R5: expected one address accumulator, found %s" % sorted(names))
-    acc = names.pop()
-    init = [a for a in C.assigns_to(loop, acc) if isinstance(a, ast.Assign)]
+    # the accumulator: the local compared with 0 where the candidate is accepted
     cfg5 = C.cfg_of(f)
-    ctx.check(len(init) == 1 and C.const_num(init[0].value) == 0 and C.enclosing_loop(init[0]) is loop
-              and all(cfg5.dominates(init[0], a_) for a_ in accs), "R5",
-              "accumulator reset per candidate", f.where(loop), "the address difference is not reset to 0 for "
-              "every candidate operand", f.qname, "accumulator reset")
-    # collect signed terms with their change variables resolved
     flow = C.flow_of(f)
+    trues0 = [r_ for r_ in ast.walk(f.node) if isinstance(r_, ast.Return) and isinstance(r_.value, ast.Constant) and r_.value.value is True]
+    acc = None
+    if len(trues0) == 1:
+        for e_, pol_ in C.norm_fact_nodes(trues0[0]):
+            if pol_ and isinstance(e_, ast.Compare) and isinstance(e_.ops[0], ast.Eq):
+                for x_, y_ in ((e_.left, e_.comparators[0]), (e_.comparators[0], e_.left)):
+                    if isinstance(x_, ast.Name) and C.const_num(y_) == 0:
+                        acc = x_.id
+    if acc is None:
+        accs0 = {n.target.id for n in ast.walk(loop) if isinstance(n, ast.AugAssign) and isinstance(n.target, ast.Name)}
+        if len(accs0) != 1:
+            ctx.broken("R5: expected one address accumulator, found %s" % sorted(accs0))
+        acc = accs0.pop()
+    accs = [n for n in ast.walk(loop) if isinstance(n, ast.AugAssign) and isinstance(n.target, ast.Name) and n.target.id == acc]
     chg = {}
-    for a in ast.walk(loop):
-        if isinstance(a, ast.Assign) and isinstance(a.targets[0], ast.Name) and isinstance(a.value, ast.Call) \
-                and isinstance(a.value.func, ast.Attribute) and a.value.func.attr == "get" and a.value.args:
-            chg[a.targets[0].id] = U(a.value.args[0])
-    got = set()
-    for n in accs:
-        sign = "+" if isinstance(n.op, ast.Add) else "-" if isinstance(n.op, ast.Sub) else "?"
-        t = U(n.value)
+    for a_ in ast.walk(loop):
+        if isinstance(a_, ast.Assign) and isinstance(a_.targets[0], ast.Name) and isinstance(a_.value, ast.Call) \
+                and isinstance(a_.value.func, ast.Attribute) and a_.value.func.attr == "get" and a_.value.args:
+            chg[a_.targets[0].id] = U(flow.subst(a_.value.args[0]))
+    # the value of the accumulator where the candidate is accepted, as alternatives of signed terms (followed through its
+    # definitions inside the iteration; a definition that reaches from an earlier iteration means it is not reset)
+    UNK5, CARRIED = None, "carried"
+
+    def term_text(e):
+        t = U(e)
         for var, key in chg.items():
-            if var in pm.names_in(n.value):
+            if var in pm.names_in(e):
                 role = "base" if ".base." in key else "index" if ".index." in key else "?"
                 t = t.replace(var, "CHG(%s)" % role)
-        got.add(sign + " " + t)
+        for call_ in [x for x in ast.walk(e) if isinstance(x, ast.Call) and isinstance(x.func, ast.Attribute) and x.func.attr == "get"
+                      and len(x.args) == 2 and U(x.func.value) == (f.params()[3] if len(f.params()) > 3 else "register_changes")]:
+            key = U(flow.subst(call_.args[0]))
+            role = "base" if ".base." in key else "index" if ".index." in key else "?"
+            t = t.replace(U(call_), "CHG(%s)" % role)
+        return t
+
+    def lin(e, at, sign=1, seen=frozenset(), depth=0):
+        if depth > 40:
+            return UNK5
+        if C.const_num(e) == 0:
+            return [()]
+        if isinstance(e, ast.BinOp) and isinstance(e.op, (ast.Add, ast.Sub)):
+            l_ = lin(e.left, at, sign, seen, depth + 1)
+            r_ = lin(e.right, at, sign if isinstance(e.op, ast.Add) else -sign, seen, depth + 1)
+            if l_ in (UNK5, CARRIED) or r_ in (UNK5, CARRIED):
+                return CARRIED if CARRIED in (l_, r_) else UNK5
+            return [x + y for x in l_ for y in r_][:128]
+        if isinstance(e, ast.IfExp):
+            b_, o_ = lin(e.body, at, sign, seen, depth + 1), lin(e.orelse, at, sign, seen, depth + 1)
+            if b_ in (UNK5, CARRIED) or o_ in (UNK5, CARRIED):
+                return CARRIED if CARRIED in (b_, o_) else UNK5
+            return b_ + o_
+        if isinstance(e, ast.Name) and e.id == acc:
+            try:
+                ds = flow.reaching(at, acc)
+            except KeyError:
+                return UNK5
+            out = []
+            for d in ds:
+                if id(d) in seen or isinstance(d.stmt, str) or not C.in_subtree(d.stmt, loop):
+                    return CARRIED
+                if d.kind == "assign" and d.value is not None:
+                    r_ = lin(d.value, d.stmt, sign, seen | {id(d)}, depth + 1)
+                elif d.kind == "aug" and isinstance(d.stmt.op, (ast.Add, ast.Sub)):
+                    l2 = lin(ast.Name(id=acc, ctx=ast.Load()), d.stmt, sign, seen | {id(d)}, depth + 1)
+                    r2 = lin(d.value, d.stmt, sign if isinstance(d.stmt.op, ast.Add) else -sign, seen | {id(d)}, depth + 1)
+                    if l2 in (UNK5, CARRIED) or r2 in (UNK5, CARRIED):
+                        return CARRIED if CARRIED in (l2, r2) else UNK5
+                    r_ = [x + y for x in l2 for y in r2][:128]
+                else:
+                    return UNK5
+                if r_ in (UNK5, CARRIED):
+                    return r_
+                out.extend(r_)
+            return out[:128]
+        return [((("+" if sign > 0 else "-") + " " + term_text(e)),)]
+
+    alts = lin(ast.Name(id=acc, ctx=ast.Load()), trues0[0]) if len(trues0) == 1 else UNK5
+    ctx.judge(alts not in (UNK5, CARRIED), alts is not UNK5, "R5",
+              "accumulator reset per candidate", f.where(loop), "the address difference is not reset to 0 for "
+              "every candidate operand", f.qname, "accumulator reset")
+    got = set()
+    if alts not in (UNK5, CARRIED):
+        for alt_ in alts:
+            got |= set(alt_)
+            dup = [t_ for t_ in alt_ if alt_.count(t_) > 1]
+            if dup:
+                ctx.bad("R5", "term counted twice " + dup[0], f.where(loop), "the term `%s` is added twice on one path" % dup[0], f.qname,
+                        "address term twice " + dup[0])
     want = {"+ %s.offset.value" % src, "- %s.offset.value" % mem, "+ CHG(base)['value']",
             "+ CHG(index)['value'] * %s.scale" % src}
     alt = {"+ CHG(index)['value'] * %s.scale" % src: "+ %s.scale * CHG(index)['value']" % src}
     got_n = {g if g not in alt.values() else [k for k, v in alt.items() if v == g][0] for g in got}
-    for wnt in sorted(want):
-        ctx.check(wnt in got_n, "R5", "term %s" % wnt, f.where(loop),
-                  "the address difference lacks the term `%s` (terms found: %s)" % (wnt, sorted(got)), f.qname,
-                  "address term " + wnt)
-    for g in sorted(got_n - want):
-        ctx.bad("R5", "unexpected term " + g, f.where(loop), "unexpected term `%s` in the address difference "
-                "(expected %s)" % (g, sorted(want)), f.qname, "address term " + g)
+    if alts not in (UNK5, CARRIED):
+        for wnt in sorted(want):
+            ctx.check(wnt in got_n, "R5", "term %s" % wnt, f.where(loop),
+                      "the address difference lacks the term `%s` (terms found: %s)" % (wnt, sorted(got)), f.qname,
+                      "address term " + wnt)
+        for g in sorted(got_n - want):
+            ctx.bad("R5", "unexpected term " + g, f.where(loop), "unexpected term `%s` in the address difference "
+                    "(expected %s)" % (g, sorted(want)), f.qname, "address term " + g)
     # true only under == 0
     trues = [r for r in ast.walk(f.node) if isinstance(r, ast.Return) and isinstance(r.value, ast.Constant)
              and r.value.value is True]
@@ -599,8 +666,15 @@ def lint_operation(text, operands):
                 out[k] = out.get(k, 0) + sign * s * c
         return out
 
+    unknown_ops = set()
     for st in tree.body:
         if isinstance(st, ast.Assign) and len(st.targets) == 1:
+            if isinstance(st.targets[0], ast.Name) and re.fullmatch(r"op\d+", st.targets[0].id) and isinstance(st.value, ast.Constant) \
+                    and st.value.value is None:
+                # `opK = None`: the operand's state becomes None, which the consumer reports as "changed in an unknown way" -
+                # exactly what a form without an operation yields for its destination
+                unknown_ops.add(int(st.targets[0].id[2:]))
+                continue
             tgt = op_index(st.targets[0])
             if tgt is None:
                 return ["operation %r: unsupported assignment target" % text]
@@ -635,7 +709,7 @@ def lint_operation(text, operands):
             return ["operation %r: statement %s not understood" % (text, U(st))]
     # judge: for every register operand whose value/name changed
     for k in range(1, n + 1):
-        if cls(k) != "register":
+        if cls(k) != "register" or k in unknown_ops:
             continue
         if value[k] == {k: 1} and name[k] == k:
             continue
